@@ -19,7 +19,7 @@ def ob(name, entry, desc, nns=1, nreq=2, maxinf=2, attempts=1, tcp=False, extra=
     d = dict(name=name, harness="C34_lifecycle.c", entry=entry, desc=desc, defines=defs, unwind=5,
              cbmc=["--memory-leak-check", "--object-bits", "10", "--max-field-sensitivity-array-size", "136"], timeout=900, mem_gb=4,
              unwindset=["transaction_id_pick.2:4", "nameserver_pick.3:4", "vpe_strlen.0:26", "vpe_strncmp.0:26", "vpd_calloc.0:15",
-                        "evdns_base_set_max_requests_inflight.4:15", "vpd_memcpy.0:30", "vpd_memset.0:130", "vpe_memcpy.0:30"])
+                        "evdns_base_set_max_requests_inflight.4:15", "vpd_memcpy.0:130", "vpd_memcpy_var.0:30", "vpd_memset.0:130", "vpe_memcpy.0:30"])
     d.update(kw)
     return d
 
